@@ -4,6 +4,7 @@ selection), TraceGlob (validation of logged wildcmp results), Range (RangeParser
 (xtp::IndexParser).  Mode L throughout: TLC checks Algo = Spec on a bounded domain and exports
 {input, expected} vectors that are replayed into the real code by drv_rangeglob."""
 import json
+import math
 import random
 import vlib
 
@@ -227,11 +228,17 @@ def run_select(ctx, exe):
     if len(model) != 1:
         raise vlib.InfraError("MCSelect did not print its bead list / tree")
     beads, tree = model[0]["beads"], model[0]["tree"]
+    pos, box = model[0]["pos"], model[0]["box"]
     vecs = [r for r in res.records if isinstance(r, dict) and "mode" in r]
     items = []
     for i, r in enumerate(vecs):
         if r["mode"] == "bead":
             cmd = "beads %s %s" % (tok(r["sel"]), " ".join(tok(b["type"]) + " " + tok(b["name"]) for b in beads))
+        elif r["mode"] == "sphere":
+            # lattice integers -> nm; r2 = 2 r^2 (odd) -> radius
+            cmd = "beadsph %s %d %d %d %d %r %s" % (
+                tok(r["sel"]), box, r["ref"][0], r["ref"][1], r["ref"][2], math.sqrt(r["r2"] / 2.0),
+                " ".join("%s %s %d %d %d" % (tok(b["type"]), tok(b["name"]), q[0], q[1], q[2]) for b, q in zip(beads, pos)))
         else:
             parts = []
             for c in tree:
@@ -243,28 +250,34 @@ def run_select(ctx, exe):
     for i, r in enumerate(vecs):
         ctx.count()
         rep = {"kind": "select", "record": r, "cmds": items[i][1]}
-        if r["mode"] == "bead":
+        if r["mode"] in ("bead", "sphere"):
             how = "by-name" if r["byname"] else "by-type"
             sel = S(r["sel"])
+            fn = "Generate"
+            if r["mode"] == "sphere":
+                fn = "GenerateInSphericalSubvolume"
+                how += ":whole-box" if r["r2"] > 2 * 3 * box * box else ":radius"
             if r["ids"]:
                 ctx.nontriv(("bead", sel))
             if i in crashes:
-                ctx.violation("BeadList:Generate:%s:crash" % how, "driver aborted on '%s': %s" % (sel, crashes[i]), rep)
+                ctx.violation("BeadList:%s:%s:crash" % (fn, how), "driver aborted on '%s': %s" % (sel, crashes[i]), rep)
                 continue
             out = results[i][0]
             got = first(out, "sel")
             if got is None:
-                ctx.violation("BeadList:Generate:%s:exception" % how, "select '%s': %s" % (sel, out), rep)
+                ctx.violation("BeadList:%s:%s:exception" % (fn, how), "select '%s': %s" % (sel, out), rep)
                 continue
             got = ints(got)
             exp = sorted(k - 1 for k in r["ids"])        # TLC bead numbers are 1-based, bead ids 0-based
             if sorted(got) != exp:
-                ctx.violation("BeadList:Generate:%s:wrong-set" % how,
-                              "select '%s' returned beads %s, the beads whose %s matches are %s" % (
-                                  sel, got, "name" if r["byname"] else "type", exp), rep)
+                ctx.violation("BeadList:%s:%s:wrong-set" % (fn, how),
+                              "select '%s'%s returned beads %s, the beads whose %s matches%s are %s" % (
+                                  sel, "" if r["mode"] == "bead" else " ref %s radius^2 %.1f" % (r["ref"], r["r2"] / 2.0), got,
+                                  "name" if r["byname"] else "type",
+                                  "" if r["mode"] == "bead" else " within the sphere (minimum image)", exp), rep)
             cnt = ints(first(out, "count"))
             if cnt[0] != len(got) or cnt[1] != len(got):
-                ctx.violation("BeadList:Generate:count", "select '%s': return value %s for %d beads" % (sel, cnt, len(got)), rep)
+                ctx.violation("BeadList:%s:count" % fn, "select '%s': return value %s for %d beads" % (sel, cnt, len(got)), rep)
         else:
             flt = ".".join(S(seg) for seg in r["flt"])
             if r["paths"]:
@@ -522,6 +535,114 @@ def run_range_hist(ctx, exe):
 
 
 # ------------------------------------------------------------------------------------
+# index files: imcio_write_index / imcio_read_index
+# ------------------------------------------------------------------------------------
+
+def render_layout(e, lay):
+    colon = " : " if lay["colon"] else ":"
+    comma = ", " if lay["comma"] else ","
+    return comma.join(colon.join(str(x) for x in b) for b in e)
+
+
+def run_index_file(ctx, exe):
+    mod = "MCIndexFileQuick" if ctx.quick else "MCIndexFileThorough"
+    res = vlib.tlc("rangeglob", mod, cfg=mod + ".cfg", timeout=1700)
+    vlib.tlc_must_hold(res, "IndexFile: reading a line gives the denoted sequence whatever the blanks; write/read preserves it")
+    ctx.add_tlc(mod, res)
+    vecs = res.records
+    if not vecs:
+        raise vlib.InfraError("no index-file vectors exported")
+    PER = 40
+    items = []
+    files = []     # per file: list of (name, vector index)
+    # (a) hand-written files: PER lines per file, harness renders name, blanks and expression
+    for f0 in range(0, len(vecs), PER):
+        path = vlib.scratch_file("c18-idx-%d.txt" % (f0 // PER))
+        entries = []
+        with open(path, "w") as fh:
+            for k in range(f0, min(f0 + PER, len(vecs))):
+                r = vecs[k]
+                name = "I%d-%d" % (k, k % 7)
+                fh.write(name + " " * r["lay"]["sep"] + render_layout(r["e"], r["lay"]) + "\n")
+                entries.append((name, k))
+        files.append(("read", path, entries))
+        # the same text handed to RangeParser::Parse directly: both entry points must give the TLC sequence
+        cmds = ["imcread %d %s" % (BUDGET, path)]
+        cmds += ["range %d %s" % (BUDGET, render_layout(vecs[k]["e"], vecs[k]["lay"])) for _, k in entries]
+        items.append((len(files) - 1, cmds))
+    # (b) written by imcio_write_index, read back (one entry per distinct expression)
+    seen = {}
+    for k, r in enumerate(vecs):
+        seen.setdefault(json.dumps(r["e"]), k)
+    uniq = sorted(seen.values())
+    for f0 in range(0, len(uniq), PER):
+        path = vlib.scratch_file("c18-idxw-%d.txt" % (f0 // PER))
+        entries = [("W%d_%d" % (k, k % 5), k) for k in uniq[f0:f0 + PER]]
+        files.append(("write", path, entries))
+        items.append((len(files) - 1, [
+            "imcwrite %s %s" % (path, " ".join("%s %s" % (n, render_range(vecs[k]["e"])) for n, k in entries)),
+            "imcread %d %s" % (BUDGET, path)]))
+    results, crashes = vlib.run_items(exe, items)
+    for fi, (kind, path, entries) in enumerate(files):
+        ctx.traces += 1
+        rep = {"kind": "indexfile", "how": kind, "file": path, "cmds": items[fi][1],
+               "lines": open(path).read().splitlines() if kind == "read" else None,
+               "expected": [(n, vecs[k]["seq"]) for n, k in entries]}
+        way = "hand-written" if kind == "read" else "write-read"
+        if fi in crashes:
+            ctx.violation("imcio:%s:crash" % way, "driver aborted on %s: ... %s" % (path, crashes[fi][-300:]), rep)
+            continue
+        out = results[fi]
+        rd = out[0] if kind == "read" else out[1]
+        if kind == "write" and first(out[0], "ok") is None:
+            ctx.violation("imcio:write-read:write-failed", "imcio_write_index: %s" % out[0], rep)
+            continue
+        got = [ln.split() for ln in rd if ln.startswith("entry ")]
+        if first(rd, "entries") is None:
+            ctx.violation("imcio:%s:rejected" % way, "imcio_read_index fails on %s: %s" % (path, rd), rep)
+            continue
+        if len(got) != len(entries):
+            ctx.violation("imcio:%s:entry-count" % way, "%d entries read, %d lines in %s" % (len(got), len(entries), path), rep)
+            continue
+        for j, (name, k) in enumerate(entries):
+            ctx.count()
+            r = vecs[k]
+            text = render_layout(r["e"], r["lay"]) if kind == "read" else render_range(r["e"])
+            lay = ("blank-after-comma" if r["lay"]["comma"] else "") + ("blank-around-colon" if r["lay"]["colon"] else "")
+            lay = (lay or "compact") if kind == "read" else stride_class(r["e"])
+            if len(r["e"]) > 1 or r["lay"]["comma"] or r["lay"]["colon"]:
+                ctx.nontriv(("idxfile", kind, text))
+            g = got[j]
+            if g[1] != name:
+                ctx.violation("imcio:%s:name" % way, "line '%s %s' read back with name '%s'" % (name, text, g[1]), rep)
+                break
+            if g[2] != "seq":
+                ctx.violation("imcio:%s:nonterminating:%s" % (way, lay), "entry '%s %s' cannot be iterated to the end" % (name, text), rep)
+                break
+            if [int(x) for x in g[3:]] != r["seq"]:
+                ctx.violation("imcio:%s:wrong-sequence:%s" % (way, lay),
+                              "index line '%s%s%s' is read as %s, the expression denotes %s" % (
+                                  name, " " * (r["lay"]["sep"] if kind == "read" else 1), text, [int(x) for x in g[3:]], r["seq"]), rep)
+                break
+            if kind == "read":
+                direct = first(out[1 + j], "seq")
+                if direct is None or ints(direct) != r["seq"]:
+                    ctx.violation("RangeParser:blanks:%s" % lay, "Parse('%s') gives %s, the expression denotes %s" % (
+                        text, out[1 + j], r["seq"]), rep)
+                    break
+    for r in vecs:
+        if r["lay"]["comma"] and len(r["e"]) == 2 and len(r["e"][0]) == 3:
+            ctx.sample({"index_file_line": "NAME " + render_layout(r["e"], r["lay"]), "denotes": r["seq"]})
+            break
+    ctx.extra["index_file_vectors"] = len(vecs)
+    res = vlib.tlc("rangeglob", "MCIndexFileFirst", cfg="MCIndexFileFirst.cfg", timeout=600)
+    ctx.add_tlc("MCIndexFileFirst", res)
+    if res.ok:
+        raise vlib.InfraError("MCIndexFileFirst: a reader that keeps only the first field is not refuted - model lost its teeth")
+    ctx.extra.setdefault("original_code_refuted_in_model", []).append("MCIndexFileFirst (first-field reader): %s" % res.violation)
+
+
+# ------------------------------------------------------------------------------------
 # index sets
 # ------------------------------------------------------------------------------------
 
@@ -644,6 +765,7 @@ def run(ctx):
     run_select(ctx, exe)
     run_range(ctx, exe)
     run_range_hist(ctx, exe)
+    run_index_file(ctx, exe)
     run_index(ctx, exe)
     run_glob_trace(ctx, exe)
     ctx.exhaustive = False
